@@ -13,6 +13,7 @@ CONSTANTS
  DevF13 = TRUE
  DevVerKey = FALSE
  DevDangEnd = FALSE
+ DevRepBeforePattern = FALSE
  DevLastOfName = FALSE
  DevNoAtomResname = FALSE
  DevOrderedPairs = FALSE
